@@ -88,6 +88,31 @@ class Property:
         self.finding_replays = finding_replays or {}     # finding id -> fn() -> (reproduced, detail)
 
 
+_PV = {}
+
+
+def _pv_worker(i):
+    c = _PV['contracts'][i]
+    try:
+        return verify(c, _PV['registry'], timeout_s=_PV['timeout'], procs=_PV['procs'])
+    except BaseException:   # noqa
+        return 'worker crash:\n' + traceback.format_exc()
+
+
+def parallel_verify(contracts, registry, timeout):
+    import concurrent.futures as cf
+    import multiprocessing as mp
+    if not contracts:
+        return []
+    outer = min(len(contracts), 6)
+    _PV.update(contracts=contracts, registry=registry, timeout=timeout,
+               procs=max(2, (os.cpu_count() or 4) // outer))
+    if outer == 1:
+        return [_pv_worker(0)]
+    with cf.ProcessPoolExecutor(max_workers=outer, mp_context=mp.get_context('fork')) as pool:
+        return list(pool.map(_pv_worker, range(len(contracts))))
+
+
 def load_known():
     p = os.path.join(VERIF, 'known_findings.json')
     if not os.path.exists(p):
@@ -134,13 +159,14 @@ def run_property(prop: Property, tier='quick', seed=0, only=None):
     used = set()
     failed_obligations = []     # (name, contract, entry)
 
-    # ---- deductive part
-    for c in prop.contracts:
-        if only and only not in c.name:
-            continue
-        if c.trusted:
-            continue
-        rep = verify(c, prop.registry, timeout_s=timeout)
+    # ---- deductive part (one forked process per function under contract; each forks its own VC pool)
+    todo = [c for c in prop.contracts if not c.trusted and not (only and only not in c.name)]
+    reports = parallel_verify(todo, prop.registry, timeout)
+    for c, rep in zip(todo, reports):
+        if isinstance(rep, str):
+            print(rep, file=sys.stderr)
+            print(f'CRASH property={prop.id} while verifying {c.name}', file=sys.stderr)
+            return 3
         solver_time += rep.solver_time
         inlined |= rep.inlined
         used |= rep.used
